@@ -75,7 +75,7 @@ def get_docstr(xml_elem):
 
 def required(xml_elem, attribute):
     value = xml_elem.get(attribute)
-    if value is None:
+    if not value:
         location = "<%s name=\"%s\">" % (xml_elem.tag, xml_elem.get("name", ""))
         raise model.ParseError([(location, "missing attribute '%s'" % attribute)])
     return value
@@ -98,9 +98,13 @@ def make_typedef(xml_elem):
         )
 
     elif "primitiveType" in xml_elem.attrib and xml_elem.get("name") not in primitive_types.values():
+        primitive_type = xml_elem.get("primitiveType")
+        if primitive_type not in primitive_types:
+            location = "<typedef name=\"%s\">" % xml_elem.get("name", "")
+            raise model.ParseError([(location, "unknown primitiveType '%s'" % primitive_type)])
         return model.Typedef(
             required(xml_elem, "name"),
-            primitive_types[xml_elem.get("primitiveType")],
+            primitive_types[primitive_type],
             docstring=get_docstr(xml_elem)
         )
 
